@@ -9,7 +9,8 @@ Inductive hcase :=
 | KToHeader (toks : list bytes) (out : str)
 | KParts (hdr : str) (parts : list (N * str))     (* 0 non-macaroon, 1 bad base64, 2 base64 ok *)
 | KB64 (s : str) (ok : bool) (out : bytes)
-| KFind (toks : list (N * option bool)) (perm dis : list N).
+| KFind (toks : list (N * option bool)) (perm dis : list N)
+| KFindOne (toks : list (N * option bool)) (ok : bool) (perm : N) (dis : list N).  (* ParsePermissionAndDischargeTokens *)
 
 Definition b2z (b : bool) : Z := if b then 1%Z else 0%Z.
 Definition zs (l : list N) : list Z := Z.of_nat (List.length l) :: map Z.of_N l.
@@ -29,6 +30,17 @@ Definition find_ids (toks : list (N * option bool)) : list N * list N :=
   let '(p, d) := find_perm_dis dec (fun l => l) ids in
   (flat_map (fun x => x) p, flat_map (fun x => x) d).
 
+Definition find_one (toks : list (N * option bool)) : option (list N * list N) :=
+  let ids := map (fun t => [fst t]) toks in
+  let dec := fun (b : bytes) => match b with
+             | [i] => match find (fun t => N.eqb (fst t) i) toks with
+                      | Some (_, Some l) => Some l | _ => None end
+             | _ => None end in
+  match perm_and_dis dec (fun l => l) ids with
+  | Some (p, d) => Some (p, flat_map (fun x => x) d)
+  | None => None
+  end.
+
 Definition model_out (k : hcase) : list Z :=
   match k with
   | KParse h _ _ => match parse h with Some l => 1%Z :: zss l | None => [0%Z; 0%Z] end
@@ -37,6 +49,7 @@ Definition model_out (k : hcase) : list Z :=
   | KParts h _ => flat_map (fun p => let '(c, s) := ptok_code p in Z.of_N c :: zs s) (bundle_parts h)
   | KB64 s _ _ => match b64_decode s with Some l => 1%Z :: zs l | None => [0%Z; 0%Z] end
   | KFind t _ _ => let '(p, d) := find_ids t in zs p ++ zs d
+  | KFindOne t _ _ _ => match find_one t with Some (p, d) => 1%Z :: zs p ++ zs d | None => [0%Z] end
   end.
 
 Definition obs_out (k : hcase) : list Z :=
@@ -47,6 +60,7 @@ Definition obs_out (k : hcase) : list Z :=
   | KParts _ ps => flat_map (fun p => Z.of_N (fst p) :: zs (snd p)) ps
   | KB64 _ ok l => if ok then 1%Z :: zs l else [0%Z; 0%Z]
   | KFind _ p d => zs p ++ zs d
+  | KFindOne _ ok p d => if ok then 1%Z :: zs [p] ++ zs d else [0%Z]
   end.
 
 Definition run (l : list hcase) := mismatches model_out obs_out l.
